@@ -351,6 +351,19 @@ class Audit:
                 self.registry = run.scheduler.type_registry
                 variant, opt, spec = ex["call"]
                 res = run.run(T.call((variant, opt, spec)), cache=ex["cache"])
+                if res[0] == "err" and not (isinstance(res[1], ValueError) and str(res[1]).startswith("gm")):
+                    # the only failures the programs contain are ValueError("gm<n>"); anything else came out of the
+                    # scheduler / recorder itself (e.g. sqlite IntegrityError when a Job row references a missing CallNode)
+                    sig = "C20-recorder-error-" + type(res[1]).__name__
+                    ctx.violation(sig, "the execution was aborted by an error raised while recording the call graph: "
+                                  + str(res[1])[:200].replace("\n", " "), {"history": self.history, "execution": len(self.exec_reqs)},
+                                  expected="run ends with the program's own result or ValueError", actual=type(res[1]).__name__)
+                    try:
+                        backend.session.rollback()
+                    except Exception:  # noqa: BLE001
+                        pass
+                    self.inexpressible = "aborted by recorder error"
+                    break
                 new_jobs = watch.order[n0:]
                 roots = [j for j in new_jobs if watch.jobs[j].parent_id is None]
                 assert len(roots) == 1, roots
@@ -496,6 +509,7 @@ class Audit:
         # values: key = hash of the deserialized value
         for v in ses.query(Value).all():
             self.stats["values"] += 1
+            data = val = None
             try:
                 data, has = self.backend._get_value_data(v)
                 val = self.registry.deserialize(v.type, data)
@@ -503,8 +517,16 @@ class Audit:
             except Exception as e:  # noqa: BLE001
                 got = "!" + type(e).__name__
             if got != v.value_hash:
-                ctx.violation("C20-value-key", "a recorded value does not deserialize to a value whose hash is its key", case,
-                              expected=v.value_hash, actual=(got, v.type))
+                if data is not None and val is not None and pickle_atom_aliasing_only(data, self.registry.serialize(val)):
+                    # the stored bytes and the re-serialized value differ only in pickle's memo references to str/bytes/int
+                    # atoms: the original object graph held two equal atoms as distinct objects (typically one computed by
+                    # a task and one read back from the cache), the unpickled graph shares them (or vice versa)
+                    ctx.violation("C20-value-key-pickle-aliasing", "a recorded container value does not re-hash to its key: "
+                                  "pickle memoization makes the bytes depend on which equal atoms are the same object", case,
+                                  expected=v.value_hash, actual=(got, v.type, repr(val)[:120]))
+                else:
+                    ctx.violation("C20-value-key", "a recorded value does not deserialize to a value whose hash is its key", case,
+                                  expected=v.value_hash, actual=(got, v.type, repr(val)[:120]))
         # tags
         want = set()
         for jid in [j for kind, j in w.events if kind == "F"]:
@@ -527,6 +549,39 @@ class Audit:
     def recorded_after(self, child, parent):
         """was the CallNode `child` first written after the CallNode `parent`?"""
         return self.first_rec.get(child, 1 << 60) > self.first_rec.get(parent, -1)
+
+
+_ATOMS = {"BINUNICODE", "SHORT_BINUNICODE", "BINUNICODE8", "UNICODE", "BINBYTES", "SHORT_BINBYTES", "BINBYTES8", "BININT", "BININT1",
+          "BININT2", "LONG1", "LONG4", "INT", "LONG", "BINSTRING", "SHORT_BINSTRING", "BINFLOAT"}
+
+
+def _memo_free(data):
+    """opcode stream of a pickle with PUTs removed and every GET of a memoized *atom* replaced by the atom;
+    None when a GET refers to a container (genuine aliasing of mutable objects, not handled here)"""
+    import pickletools
+    out, memo, last, n = [], {}, None, 0
+    for op, arg, _ in pickletools.genops(data):
+        if op.name in ("BINPUT", "LONG_BINPUT", "PUT", "MEMOIZE"):
+            memo[arg if op.name != "MEMOIZE" else n] = last
+            n += 1
+            continue
+        if op.name in ("BINGET", "LONG_BINGET", "GET"):
+            tgt = memo.get(arg)
+            if tgt is None or tgt[0] not in _ATOMS:
+                return None
+            out.append(tgt)
+            last = tgt
+            continue
+        if op.name == "FRAME":
+            continue
+        last = (op.name, arg)
+        out.append(last)
+    return out
+
+
+def pickle_atom_aliasing_only(a, b):
+    x, y = _memo_free(a), _memo_free(b)
+    return a != b and x is not None and x == y
 
 
 def has_fail(call):
